@@ -10,6 +10,8 @@ import os
 import common
 
 RATES = [(10 ** 8, 7), (10 ** 9, 7), (10 ** 6, 3), (200, 3), (25 * 10 ** 6, 3), (1, 1), (100, 1)]
+# rates whose present-day indices satisfy k*d >= 2^64 (k itself < 2^63): a 64-bit evaluation of k*d wraps
+BIG_RATES = [(10 ** 11, 1001), (20000000123, 1000), (12345678901, 10)]
 FCS = [1, 3, 60, 3600]
 SCS = [3600, 86400]
 PREFIX = "metadata"
@@ -101,7 +103,8 @@ def run_config(res, n, d, fc, sc, ks, queries, stats):
     # ---- model (both variants) for every written sample
     mE = model_paths(0, n, d, fc, sc, ks)
     mL = model_paths(1, n, d, fc, sc, ks)
-    subs = sorted({m[0] for m in mE} | {m[0] for m in mL})
+    mW = model_paths(2, n, d, fc, sc, ks)
+    subs = sorted({m[0] for m in mE} | {m[0] for m in mL} | {m[0] for m in mW})
     parts = dict(zip(subs, common.run_model("metadata", [[3, s] for s in subs])))
 
     def mrel(m):
@@ -132,7 +135,10 @@ def run_config(res, n, d, fc, sc, ks, queries, stats):
                           inp, [exp], got)
         stats["E"] += (got == [mrel(mE[t])])
         stats["L"] += (got == [mrel(mL[t])])
+        stats["W"] += (got == [mrel(mW[t])])
         stats["N"] += 1
+        if k * d >= 2 ** 64:
+            res.count("write:k*d>=2^64")
         if mE[t] != mL[t]:
             res.count("write:longdouble-variant-differs-here")
         if got != [mrel(mE[t])]:
@@ -187,25 +193,39 @@ def run_config(res, n, d, fc, sc, ks, queries, stats):
     return files
 
 
+def raise_stack_limit():
+    """the extracted model recurses over candidate-file lists (one element per cadence slot, 86400 per
+    day at 1 s cadence); child processes inherit the limit"""
+    import resource
+    soft, hard = resource.getrlimit(resource.RLIMIT_STACK)
+    try:
+        resource.setrlimit(resource.RLIMIT_STACK, (hard, hard))
+    except (ValueError, OSError):
+        pass
+
+
 def run(res):
     common.use_impl()
+    raise_stack_limit()
     rng = res.rng
     quick = res.tier == "quick"
-    res.rule = ("channels over rates {10^8/7,10^9/7,10^6/3,200/3,25e6/3,1,100} x file cadences {1,3,60,3600} x "
+    res.rule = ("channels over rates {10^8/7,10^9/7,10^6/3,200/3,25e6/3,1,100} and {10^11/1001,20000000123/1000,"
+                "12345678901/10} (present-day k*d >= 2^64) x file cadences {1,3,60,3600} x "
                 "subdir cadences {3600,86400}; samples k = ceil(j*cadence*n/d)+{-1,0,1} for file numbers j of a "
                 "day from 2017-07-14 plus epoch / digit-change / subdirectory / leap-day edges, preferring the j "
                 "on which the LongDouble variant of the model differs from the exact one; written as singles and "
                 "as batches straddling the boundary (dict and list forms); observed: on-disk path (h5py walk), "
                 "_get_file_list(k,k), read(k,k), range reads, read_latest; non-trivial = distinct (config, k) or "
                 "(config, range)")
-    stats = {"E": 0, "L": 0, "N": 0, "rE": 0, "rL": 0, "rN": 0}
+    stats = {"E": 0, "L": 0, "W": 0, "N": 0, "rE": 0, "rL": 0, "rN": 0}
     nmodel = 0
     per_cfg = 30 if quick else 120
     first = True
     ci = 0
-    for (n, d) in RATES:
-        for fc in FCS:
-            for sc in (SCS if not quick else [SCS[(FCS.index(fc) + RATES.index((n, d))) % 2]]):
+    allrates = RATES + BIG_RATES
+    for (n, d) in allrates:
+        for fc in (FCS if (n, d) in RATES or not quick else [FCS[(allrates.index((n, d)) + t) % 4] for t in (0, 2)]):
+            for sc in (SCS if not quick else [SCS[(FCS.index(fc) + allrates.index((n, d))) % 2]]):
                 ci += 1
                 groups = boundary_groups(rng, fc, sc, res.tier)
                 if quick:   # the day group plus one rotating edge group
@@ -255,6 +275,10 @@ def run(res):
     exact_ok = stats["E"] == stats["N"] and stats["rE"] == stats["rN"]
     ld_ok = stats["L"] == stats["N"] and stats["rL"] == stats["rN"]
     res.extra["variant_selected"] = "Exact" if exact_ok else ("LongDouble" if ld_ok else "none")
+    if not exact_ok and stats["W"] == stats["N"]:
+        res.extra["variant_selected"] = "writer=U64Wrap"
+        res.notes.append("the writer agrees with the U64Wrap variant (k*d evaluated modulo 2^64) on every case: "
+                         "C13_u64wrap_variant_refuted applies")
     if not exact_ok and ld_ok:
         res.notes.append("the implementation agrees with the LongDouble (pre-fix) variant on every case: "
                          "C13_longdouble_variant_refuted applies; witness n=1e8 d=7 cadence=3 k=21428571600000000")
@@ -276,6 +300,8 @@ def run(res):
     res.extra["traces_validated_against_impl"] = res.evaluations
     res.assumptions += [
         "sample indices 0 <= k < 2^63 and times before year 9999 (np.uint64 / np.int64 conversions in write/read are not modelled)",
+        "no bound on k*d: the code computes int(s)*d//n in Python integers (unbounded), which is Z arithmetic; rates with "
+        "present-day k*d >= 2^64 are generated on every run and a 64-bit evaluation is kept as the refuted U64Wrap variant",
         "Python int // and * are Coq Z.div / Z.mul on non-negative operands; h5py/os path handling is glue covered by the correspondence",
         "the LongDouble variant (Model/Ld80.v) models x87 80-bit round-to-nearest-even for positive normal values only; used for the pre-fix code, not for any theorem about the current code",
     ]
